@@ -489,7 +489,10 @@ func runC19(c *engine.Ctx) {
 	}
 	sh := buildShared()
 	dumpShared := func(x *c19Shared) string {
-		return stateDump.Sdump([]any{x.m, x.m2, x.plugins, x.penv}) + hashBytes([]byte(stateDump.Sdump(x.pl))) + hashBytes([]byte(stateDump.Sdump(x.wrapped)))
+		// the caller's key objects are observed too (their JSON form: every field a key carries)
+		kpub, _ := json.Marshal(x.kp.pub)
+		kpriv, _ := json.Marshal(x.kp.priv)
+		return stateDump.Sdump([]any{x.m, x.m2, x.plugins, x.penv}) + fmt.Sprintf(" keys=%016x/%016x ", tape.HashString(string(kpub)), tape.HashString(string(kpriv))) + hashBytes([]byte(stateDump.Sdump(x.pl))) + hashBytes([]byte(stateDump.Sdump(x.wrapped)))
 	}
 
 	// ---- tasks and their programs
